@@ -152,12 +152,37 @@ def cmd_run(pkg, pysrc, cases, out):
             chars = list(src)
             rec["cs"] = chars
             rec["cc"] = [char_class(ch) for ch in chars]
+            if c.get("pyonly"):
+                # a text that only exists as a Python str (lone surrogates): position tables by code point;
+                # surrogates are written as U+FFFD (class 4) and counted as 3 bytes
+                def is_sur(ch):
+                    return 0xD800 <= ord(ch) <= 0xDFFF
+                cs = ["\ufffd" if is_sur(ch) else ch for ch in chars]
+                cw = [3 if is_sur(ch) else len(ch.encode("utf-8")) for ch in chars]
+                cc = [4 if is_sur(ch) else char_class(ch) for ch in chars]
+                cb, cl, cco = [], [], []
+                b, l = 0, 1
+                bom = 1 if chars[:1] == ["\ufeff"] else 0
+                col = -1 if bom else 0
+                for ch, w_ in zip(chars, cw):
+                    cb.append(b); cl.append(l); cco.append(col)
+                    b += w_
+                    if ch == "\n":
+                        l += 1; col = 0
+                    else:
+                        col += 1
+                cb.append(b); cl.append(l); cco.append(col)
+                rec["tbl"] = {"id": c["id"], "ok": True, "panic": "", "native": False, "budget_exceeded": False, "events": [],
+                              "cs": cs, "cw": cw, "cc": cc, "cb": cb, "cl": cl, "cco": cco, "bom": bom, "len": b,
+                              "nchars": len(chars), "rtoks": [], "errs": [], "lit": [], "litlen": 0}
+                rec["cs"] = cs
+                rec["cc"] = cc
             try:
                 raw = ext._lex_program_from_str(src)
             except BaseException as e:  # PanicException derives from BaseException
                 rec["ok"] = False
                 rec["panic"] = "%s: %s" % (type(e).__name__, str(e)[:200])
-                w.write(json.dumps(rec, ensure_ascii=False) + "\n")
+                w.write(json.dumps(rec, ensure_ascii=not all(ord(x) < 0xD800 or ord(x) > 0xDFFF for x in "".join(rec.get("lit", [])))) + "\n")
                 continue
             try:
                 payload = unpack(raw)
@@ -211,7 +236,7 @@ def cmd_run(pkg, pysrc, cases, out):
             except Exception as e:  # the payload does not decode into the declared layout
                 rec["toks"], rec["errs"], rec["lit"], rec["litlen"] = [], [], [], 0
                 rec["decode_error"] = "%s: %s" % (type(e).__name__, str(e)[:200])
-            w.write(json.dumps(rec, ensure_ascii=False) + "\n")
+            w.write(json.dumps(rec, ensure_ascii=not all(ord(x) < 0xD800 or ord(x) > 0xDFFF for x in "".join(rec.get("lit", [])))) + "\n")
 
 
 if __name__ == "__main__":
